@@ -50,6 +50,10 @@
  *                    H hand the client end over (mutex-protected slot)   T take it (waits for it)
  *                    m send one message on the client end   r receive one message on the accepted end
  *                    D raise the "done" flag   W wait for it
+ *   In every mode the OpenSSL entry points that build or read process-global state on the initialisation and
+ *   socket-creation paths (OPENSSL_init_ssl, BIO_get_new_index, BIO_meth_new, BIO_meth_set_*, BIO_new) are
+ *   scheduling points too; SSL_set_bio under pts=all only.  No TLS socket exists before the threads start, so in
+ *   every tls/tls scenario both threads create the process's FIRST TLS sockets.
  *   pts=all: scheduling point at every shim system call inside the library
  *   pts=dep: only at calls that allocate/release descriptor numbers or touch objects another thread
  *            can reach (socket, accept, eventfd, epoll_create1, timerfd_create, fopen, close, epoll_ctl,
@@ -113,6 +117,7 @@ static int g_slot_msgno;       /* message number the taker continues with */
 static char g_slot_tp[8];
 static char g_slot_cred;
 static int g_done;
+static int g_abort;            /* a thread gave up after a reported failure: partners must not wait for it */
 
 /* ---------------------------------------------------------------------------------------------- */
 #ifdef H_THR_TSAN
@@ -412,8 +417,8 @@ static int op_close(struct thr *t, struct xcm_socket **s, char op)
 
 /* ---- hand-over ------------------------------------------------------------------------------ */
 #ifndef H_THR_TSAN
-static int slot_filled(void *a) { (void)a; return g_slot != NULL; }
-static int done_raised(void *a) { (void)a; return g_done != 0; }
+static int slot_filled(void *a) { (void)a; return g_slot != NULL || g_abort; }
+static int done_raised(void *a) { (void)a; return g_done != 0 || g_abort; }
 #endif
 
 static void op_handover(struct thr *t)
@@ -434,7 +439,7 @@ static void op_handover(struct thr *t)
 static void op_take(struct thr *t)
 {
     pthread_mutex_lock(&g_slot_lock);
-    while (!g_slot) {
+    while (!g_slot && !g_abort) {
 #ifdef H_THR_TSAN
         pthread_cond_wait(&g_slot_cv, &g_slot_lock);
 #else
@@ -445,6 +450,8 @@ static void op_take(struct thr *t)
     }
     t->cli = g_slot;
     g_slot = NULL;
+    if (!t->cli)
+        t->failed = 1;         /* the partner's failure has been reported; nothing to take */
     pthread_mutex_unlock(&g_slot_lock);
     OBS("t%d took the socket", t->id);
 }
@@ -463,7 +470,7 @@ static void op_done(struct thr *t)
 static void op_wait_done(struct thr *t)
 {
     pthread_mutex_lock(&g_slot_lock);
-    while (!g_done) {
+    while (!g_done && !g_abort) {
 #ifdef H_THR_TSAN
         pthread_cond_wait(&g_slot_cv, &g_slot_lock);
 #else
@@ -472,6 +479,8 @@ static void op_wait_done(struct thr *t)
         pthread_mutex_lock(&g_slot_lock);
 #endif
     }
+    if (!g_done)
+        t->failed = 1;         /* the partner's failure has been reported */
     pthread_mutex_unlock(&g_slot_lock);
     OBS("t%d saw done", t->id);
 }
@@ -539,6 +548,12 @@ static void thread_body(void *arg)
     }
     /* a failed script still releases what it holds, so that the end-state oracles stay meaningful */
     if (t->failed) {
+        pthread_mutex_lock(&g_slot_lock);
+        g_abort = 1;
+#ifdef H_THR_TSAN
+        pthread_cond_broadcast(&g_slot_cv);
+#endif
+        pthread_mutex_unlock(&g_slot_lock);
         if (t->cli) CALL("xcm_close", xcm_close(t->cli));
         if (t->acc) CALL("xcm_close", xcm_close(t->acc));
         if (t->srv) CALL("xcm_close", xcm_close(t->srv));
@@ -601,6 +616,7 @@ static int parse_threads(const char *params)
     g_pts_all = strcmp(b, "dep") != 0;
     g_slot = NULL;
     g_done = 0;
+    g_abort = 0;
     return g_nthr >= 1 ? 0 : -1;
 }
 
@@ -1091,6 +1107,85 @@ struct xcm_socket *__wrap_xcm_tp_socket_create(const struct xcm_tp_proto *proto,
     return s;
 }
 
+/* ---- scheduling points at the OpenSSL entry points of library initialisation / TLS socket creation ---- */
+/* The calls that build or read process-global OpenSSL state (library init, the BIO method table behind
+   bio_btcp_method) are scheduling points in every mode; SSL_set_bio touches one socket's objects only and is a
+   point under pts=all.  While the real function runs, the API label is "<xcm call>>OpenSSL function", so a crash
+   inside OpenSSL names the entry point. */
+int __real_OPENSSL_init_ssl(uint64_t opts, const OPENSSL_INIT_SETTINGS *settings);
+int __real_BIO_get_new_index(void);
+BIO_METHOD *__real_BIO_meth_new(int type, const char *name);
+int __real_BIO_meth_set_write(BIO_METHOD *m, int (*f)(BIO *, const char *, int));
+int __real_BIO_meth_set_read(BIO_METHOD *m, int (*f)(BIO *, char *, int));
+int __real_BIO_meth_set_ctrl(BIO_METHOD *m, long (*f)(BIO *, int, long, void *));
+int __real_BIO_meth_set_create(BIO_METHOD *m, int (*f)(BIO *));
+int __real_BIO_meth_set_destroy(BIO_METHOD *m, int (*f)(BIO *));
+BIO *__real_BIO_new(const BIO_METHOD *m);
+void __real_SSL_set_bio(SSL *s, BIO *r, BIO *w);
+
+static int ossl_enter(const char *name, int global, char *old, size_t n)
+{
+    if (!g_model || !mc_in_task() || !mc_cur_api()[0])
+        return 0;
+    if (global || g_pts_all) {
+        mc_count(CNT_SCHEDPOINTS, 1);
+        mc_sched_point(name);
+    }
+    char nm[64];
+    snprintf(old, n, "%s", mc_cur_api());
+    snprintf(nm, sizeof nm, "%.40s>%s", old, name + 5);
+    mc_trace("t%d %s: %s", mc_cur_task(), old, name);
+    mc_api_begin(nm, mc_cur_api_nonblocking());
+    return 1;
+}
+
+static void ossl_leave(int entered, const char *old)
+{
+    if (entered)
+        mc_api_begin(old, mc_cur_api_nonblocking());
+}
+
+#define OSSL_WRAP(global, name, call) ({ char _old[64]; int _e = ossl_enter("ossl:" name, global, _old, sizeof _old); \
+                                         __typeof__(call) _r = (call); ossl_leave(_e, _old); _r; })
+
+int __wrap_OPENSSL_init_ssl(uint64_t opts, const OPENSSL_INIT_SETTINGS *settings)
+{
+    return OSSL_WRAP(1, "OPENSSL_init_ssl", __real_OPENSSL_init_ssl(opts, settings));
+}
+int __wrap_BIO_get_new_index(void) { return OSSL_WRAP(1, "BIO_get_new_index", __real_BIO_get_new_index()); }
+BIO_METHOD *__wrap_BIO_meth_new(int type, const char *name)
+{
+    return OSSL_WRAP(1, "BIO_meth_new", __real_BIO_meth_new(type, name));
+}
+int __wrap_BIO_meth_set_write(BIO_METHOD *m, int (*f)(BIO *, const char *, int))
+{
+    return OSSL_WRAP(1, "BIO_meth_set_write", __real_BIO_meth_set_write(m, f));
+}
+int __wrap_BIO_meth_set_read(BIO_METHOD *m, int (*f)(BIO *, char *, int))
+{
+    return OSSL_WRAP(1, "BIO_meth_set_read", __real_BIO_meth_set_read(m, f));
+}
+int __wrap_BIO_meth_set_ctrl(BIO_METHOD *m, long (*f)(BIO *, int, long, void *))
+{
+    return OSSL_WRAP(1, "BIO_meth_set_ctrl", __real_BIO_meth_set_ctrl(m, f));
+}
+int __wrap_BIO_meth_set_create(BIO_METHOD *m, int (*f)(BIO *))
+{
+    return OSSL_WRAP(1, "BIO_meth_set_create", __real_BIO_meth_set_create(m, f));
+}
+int __wrap_BIO_meth_set_destroy(BIO_METHOD *m, int (*f)(BIO *))
+{
+    return OSSL_WRAP(1, "BIO_meth_set_destroy", __real_BIO_meth_set_destroy(m, f));
+}
+BIO *__wrap_BIO_new(const BIO_METHOD *m) { return OSSL_WRAP(1, "BIO_new", __real_BIO_new(m)); }
+void __wrap_SSL_set_bio(SSL *s, BIO *r, BIO *w)
+{
+    char old[64];
+    int e = ossl_enter("ossl:SSL_set_bio", 0, old, sizeof old);
+    __real_SSL_set_bio(s, r, w);
+    ossl_leave(e, old);
+}
+
 /* ---- scheduling points at shim calls ------------------------------------------------------------ */
 static int is_dependent_call(const char *n)
 {
@@ -1194,8 +1289,9 @@ static void scenario(const char *params)
                      "hand-over that nobody will ever release)", who);
     } else if (end == MC_END_HORIZON)
         mc_violation("C15/livelock", "step horizon reached: the threads keep running without finishing");
-    else {
-        /* end-state oracles */
+    else if (!g_abort) {
+        /* end-state oracles (skipped when a thread gave up after a reported failure: a socket may be left in the
+           hand-over slot; the failure itself is the finding) */
         for (int i = 0; i < g_npool; i++)
             if (g_pool[i].live)
                 mc_violation("C15/pool/not-empty-at-end", "all sockets are closed but the shared wake-up pool still "
